@@ -163,6 +163,30 @@ struct C18 : vr::Driver {
               s.psiPattern = psi;
               specs.push_back(s);
             }
+      // C3. swap guard: full product of (which level carries a swap limit) x (how full the root swap is), validation on - the
+      // effective utilisation is the HIGHEST usage/limit ratio on the path, not the ratio of the tightest limit
+      if (imm)
+        for (int sw = 0; sw < 4; sw++)
+          for (int rs = 0; rs < 3; rs++)
+            for (int files = 0; files < 3; files++)
+              for (const char* thr : {"0.8", "0.5"}) {
+                Spec s = base(true);
+                s.args["swap_validation"] = "true";
+                s.args["swap_threshold"] = thr;
+                if (sw == 1 || sw == 3) {
+                  s.swapMaxA = 256 * MB;
+                  s.swapCurA = 10 * MB;  // own limit: the tightest on the path, and nearly unused
+                }
+                if (sw == 2 || sw == 3) {
+                  s.swapMaxT = 2048 * MB;
+                  s.swapCurT = sw == 3 ? 1900 * MB : 600 * MB;  // parent slice: nearly full / a third used
+                }
+                if (rs == 0) s.rootSwapTotalKb = s.rootSwapUsedKb = 0;
+                if (rs == 2) s.rootSwapUsedKb = 1992294;
+                s.hasReclaim = files == 1;
+                s.hasHighTmp = files == 2;
+                specs.push_back(s);
+              }
       // D. environment histories
       for (int ev = 1; ev <= 4; ev++)
         for (int psi : {0, 2})
